@@ -217,14 +217,13 @@ def DecryptEnv.witness : DecryptEnv Prims.toy16 Identity where
   newReader k p := .ok (k ++ p, none)
   hNew _ _ := rfl
 
-/-- the destination is the model's; `Header.Marshal` writes the header in one piece; the writer is (key, destination),
-    `none` the nil `*stream.Writer` returned with an error (the type argument ω is an `Option`: for a `DstSpec`
-    whose state type is empty `Bytes × Dst S` has no element to serve as `nilW`) -/
-def EncryptEnv.witness (S : DstSpec) : EncryptEnv Prims.toy16 S Recipient (Dst S) (Option (Bytes × Dst S)) where
+/-- the destination is the model's; `Header.Marshal` writes the header in one piece; for ANY writer-handle type and
+    constructor (the handle `stream.NewWriter` returns is a parameter of the structure) -/
+def EncryptEnv.witnessW (S : DstSpec) {ω : Type} (nilW : ω) (mkW : Bytes → Dst S → ω) : EncryptEnv Prims.toy16 S Recipient (Dst S) ω where
   eRand := ⟨"crypto/rand", 0, []⟩
   eWrap := ⟨"age.Recipient.Wrap", 0, []⟩
   eW := ⟨"dst: write failed", 0, []⟩
-  nilW := none
+  nilW := nilW
   recOf := id
   W r fk tape := .ok (match wrapOne Prims.toy16 r fk tape with
         | .error () => ([], [], some ⟨"crypto/rand", 0, []⟩, tape)
@@ -243,9 +242,14 @@ def EncryptEnv.witness (S : DstSpec) : EncryptEnv Prims.toy16 S Recipient (Dst S
   hWrite _ _ := ⟨_, _, rfl, rfl⟩
   key fk n := .ok (streamKey Prims.toy16 fk n)
   hKey _ _ := rfl
-  mkW k d := some (k, d)
-  newWriter k d := .ok (some (k, d), none)
+  mkW := mkW
+  newWriter k d := .ok (mkW k d, none)
   hNew _ _ := rfl
+
+/-- the writer is (key, destination), `none` the nil `*stream.Writer` returned with an error (ω is an `Option`: for a
+    `DstSpec` whose state type is empty `Bytes × Dst S` has no element to serve as `nilW`) -/
+def EncryptEnv.witness (S : DstSpec) : EncryptEnv Prims.toy16 S Recipient (Dst S) (Option (Bytes × Dst S)) :=
+  EncryptEnv.witnessW S none (fun k d => some (k, d))
 
 end GoTie
 end AgeModel
